@@ -140,6 +140,13 @@ func (s *Script) Close() error {
 	return s.CloseErr
 }
 
+// ErrDelivered tells whether some Read has returned an error other than plain io.EOF.
+func (s *Script) ErrDelivered() bool {
+	s.mu.Lock()
+	defer s.mu.Unlock()
+	return s.sticky != nil && s.sticky != io.EOF
+}
+
 // Delivered is the concatenation of all bytes handed out so far.
 func (s *Script) Delivered() []byte {
 	s.mu.Lock()
